@@ -131,3 +131,49 @@ func VerifC18Step() {
 		}
 	}
 }
+
+// VerifCoreOrderLemmas: FuncAction.Exec ranges over the bindings to collect the permanent ones and over
+// that collection to write them back; its result does not depend on either order (all orders explored
+// here), so the other harnesses iterate those loops in insertion order only.
+func VerifCoreOrderLemmas() {
+	verif.NoOrderLemma(true)
+	bs := match.Bindings(verif.AnyMap("bs", verif.Opts{Depth: 1, Width: 3, Pool: []string{"a!", "b!", "c", "d!"}, ValPool: []string{"v"}, Leaf: verif.TStr | verif.TF64, Finite: true}))
+	mode := verif.Choose("mode", 3)
+	a := &FuncAction{F: func(ctx context.Context, in match.Bindings, p StepProps) (*Execution, error) {
+		switch mode {
+		case 0:
+			return NewExecution(match.Bindings{"fresh": 1.0}), nil
+		case 1:
+			out := in.Copy()
+			for _, k := range verif.Keys(in) {
+				out[k] = "overwritten"
+			}
+			return NewExecution(out), nil
+		}
+		return NewExecution(in), nil
+	}}
+	exe, err := a.Exec(context.Background(), bs.Copy(), nil)
+	verif.Assert("exec-ok", err == nil && exe != nil && exe.Bs != nil)
+	if exe == nil {
+		return
+	}
+	// the result is fully determined: permanent ones restored, everything else as the action left it
+	for _, k := range verif.Keys(bs) {
+		if strings.HasSuffix(k, "!") {
+			verif.Assert("FuncAction.Exec-order-insensitive", verif.JSONEqual(exe.Bs[k], bs[k]))
+		} else if mode == 1 {
+			verif.Assert("FuncAction.Exec-order-insensitive", verif.JSONEqual(exe.Bs[k], "overwritten"))
+		}
+	}
+	want := len(bs)
+	if mode == 0 {
+		want = 1
+		for _, k := range verif.Keys(bs) {
+			if strings.HasSuffix(k, "!") {
+				want++
+			}
+		}
+	}
+	verif.Assert("FuncAction.Exec-order-insensitive-size", len(exe.Bs) == want)
+	verif.Reach("end")
+}
